@@ -14,7 +14,7 @@ structure Elem.Item (e : Elem) : Prop where
   hfit : e.ns.length + e.name.length + 5 ≤ 128
   hc : isWs e.c = false
   hv : ∀ x ∈ e.v, (x == 60) = false
-  hvwin : e.v.length + 1 ≤ 512
+  hvwin : e.v.length < 1536
 
 theorem readSeqTags_unfold (f : Nat) (parent : Tag) : readSeqTags parent (f + 1) = (do
     let tag ← readTagHeader parent
@@ -44,21 +44,12 @@ theorem readSeqTags_item_exact (parent : Tag) (st : St) (ws : Bytes) (e : Elem) 
   simp only [he1, Bool.false_eq_true, if_false, beq_self_eq_true, if_true]
   rw [bindOk (fun st => (.ok st.rest.length, st) : M Nat) _ _ _ _ rfl]
   rw [bindOk _ _ _ _ _ (attrLoop_noattr (some parent.parent) _ _ _ rfl)]
-  have hpk : peek 512 { st with a := false, rest := e.v ++ e.close ++ R } =
-      (.ok (e.v ++ [60] ++ ((47 :: ((e.n0 :: e.ns) ++ 58 :: (e.name ++ [62])) ++ R).take (512 - e.v.length - 1))), { st with a := false, rest := e.v ++ e.close ++ R }) := by
-    rw [peek_take 512 _ (by unfold W; omega) (by simp [Elem.close, Elem.v]; omega)]
-    congr 2
-    show (e.v ++ e.close ++ R).take 512 = _
-    have hvw := ok.hvwin
-    have e1 : (e.v ++ e.close ++ R : Bytes) = (e.v ++ [60]) ++ (47 :: ((e.n0 :: e.ns) ++ 58 :: (e.name ++ [62])) ++ R) := by simp [Elem.close]
-    rw [e1, List.take_append, List.take_of_length_le (by simp; omega)]
-    have hn : 512 - (e.v ++ [60] : Bytes).length = 512 - e.v.length - 1 := by simp; omega
-    rw [hn]
-  rw [bindOk _ _ _ _ _ (elem_value_exact 7 512 _ e.v _ e.c e.v' rfl ok.hv ok.hc hpk)]
-  dsimp only
-  have hd : (e.v ++ e.close ++ R : Bytes).drop e.v.length = e.close ++ R := by
-    rw [List.append_assoc, List.drop_left]
-  rw [hd]
+  have hrv : ({ st with a := false, rest := e.v ++ e.close ++ R } : St).rest = (e.c :: e.v') ++ 60 :: ((47 :: ((e.n0 :: e.ns) ++ 58 :: (e.name ++ [62]))) ++ R) := by
+    simp [Elem.v, Elem.close]
+  rw [bindOk _ _ _ _ _ (readTagValue_any _ e.c e.v' _ ok.hv ok.hc ok.hvwin hrv (by simp [Elem.close, Elem.v]; omega))]
+  have hcl : (60 :: ((47 :: ((e.n0 :: e.ns) ++ 58 :: (e.name ++ [62]))) ++ R) : Bytes) = e.close ++ R := rfl
+  rw [hcl]
+  show (emit { pt := 2, parent := parent.self, self := parent.parent, val := e.v } >>= fun _ => readSeqTags parent (f + 1)) { rest := e.close ++ R, a := false, toks := st.toks } = _
   have hemit : emit { pt := 2, parent := parent.self, self := parent.parent, val := e.v }
       { rest := e.close ++ R, a := false, toks := st.toks } =
       (.ok (), { rest := e.close ++ R, a := false, toks := { pt := 2, parent := parent.self, self := parent.parent, val := e.v } :: st.toks }) := by
